@@ -21,6 +21,8 @@ class Site:
   params: list
   nondiff: tuple
   rule: str = ''     # name of the rule function(s)
+  fwd: str = ''
+  wholesale: bool = False
   problems: list = dataclasses.field(default_factory=list)
 
 
@@ -153,6 +155,7 @@ def _check_jvp_rule(site, rule_fn, nparams):
   n = len(diff_idx)
   seeds, sub, wholesale = _component_seeds(rule_fn, tname, n)
   if wholesale:
+    site.wholesale = True
     return
   # names bound to expressions that read tangents[i] are seeds of component i as well
   seeds = {k: set(v) for k, v in seeds.items()}
@@ -264,6 +267,7 @@ def scan(tree):
         elif parts[-1] == 'defvjp' and len(nd.args) >= 2:
           registered.add(s.name)
           r = funcs.get((_dotted(nd.args[1]) or '').split('.')[-1])
+          s.fwd = (_dotted(nd.args[0]) or '<lambda>').split('.')[-1]
           if r is not None:
             s.rule = r.name
             _check_vjp_rule(s, r, len(s.params))
